@@ -59,6 +59,3 @@ Definition fixed2 : tables2 := {|
 
 Lemma tables2_current : tables2_of_source = fixed2.
 Proof. reflexivity. Qed.
-
-(* the model of the current source *)
-Definition export3 : oracle -> sapp -> outcome doc3 := export3_with tables3_of_source.
